@@ -1,11 +1,30 @@
 package winpath
+
 import "testing"
-func TestW(t *testing.T){
- for _,c:=range [][2]string{{`C:\a\..\b`,`C:\b`},{`c:/a//b/.`,`c:\a\b`},{`\\host\share\x\..`,`\\host\share\`},{`a/../..`,`..`}} { if g:=Clean(c[0]); g!=c[1] {t.Errorf("Clean(%q)=%q want %q",c[0],g,c[1])}}
- if !IsAbs(`C:\a`)||IsAbs(`\a`)||IsAbs(`C:a`) {t.Error("isabs")}
- if VolumeName(`\\?\C:\x`)!=`\\?\C:` {t.Errorf("vol %q", VolumeName(`\\?\C:\x`))}
- if Join(`C:`,`a`)!=`C:a` {t.Error(Join(`C:`,`a`))}
- if string(Separator)!=`\` {t.Error("sep")}
- m,_:=Match(`a\*`,`a\b`); if !m {t.Error("match")}
- if r,e:=Rel(`C:\a`,`C:\a\b\c`); e!=nil||r!=`b\c` {t.Error(r,e)}
+
+func TestW(t *testing.T) {
+	for _, c := range [][2]string{{`C:\a\..\b`, `C:\b`}, {`c:/a//b/.`, `c:\a\b`}, {`\\host\share\x\..`, `\\host\share\`}, {`a/../..`, `..`}} {
+		if g := Clean(c[0]); g != c[1] {
+			t.Errorf("Clean(%q)=%q want %q", c[0], g, c[1])
+		}
+	}
+	if !IsAbs(`C:\a`) || IsAbs(`\a`) || IsAbs(`C:a`) {
+		t.Error("isabs")
+	}
+	if VolumeName(`\\?\C:\x`) != `\\?\C:` {
+		t.Errorf("vol %q", VolumeName(`\\?\C:\x`))
+	}
+	if Join(`C:`, `a`) != `C:a` {
+		t.Error(Join(`C:`, `a`))
+	}
+	if string(Separator) != `\` {
+		t.Error("sep")
+	}
+	m, _ := Match(`a\*`, `a\b`)
+	if !m {
+		t.Error("match")
+	}
+	if r, e := Rel(`C:\a`, `C:\a\b\c`); e != nil || r != `b\c` {
+		t.Error(r, e)
+	}
 }
